@@ -93,3 +93,44 @@ def dictpile_obligations(repo, chk, rule):
         and any(isinstance(n, ast.Raise) and set(c) == {"self.default is _MISSING"} and order(n) > order(loops[0]) for t, c, n in fgi.items)
     chk.ob(rule, "utils.DictPile.__getitem__:default-only-when-absent-everywhere", ok, gi.where,
            "the default (the ABSENT marker for generated code) is returned only after every dict was searched")
+
+
+def call_aggregates(repo, prop):
+    """selector.Call.<prop> looks at the level's own captures AND at its child calls (a value condition / receiver constraint
+    written on a nested call decides whether the capture check is installed at all)."""
+    import ast
+    from ..astq import is_name, is_self_attr
+    fi = repo.func(f"selector.Call.{prop}")
+    selfattrs = {n.attr for n in ast.walk(fi.node) if is_self_attr(n)}
+    attrs = {n.attr for n in ast.walk(fi.node) if isinstance(n, ast.Attribute)}
+    ok = {"captures", "children"} <= selfattrs and prop in attrs and \
+        (any(isinstance(n, ast.Call) and is_name(n.func, "any") for n in ast.walk(fi.node)) if prop == "hasval" else True)
+    return fi, ok
+
+
+def late_bound(fn_node):
+    import ast
+    from ..core import norm
+    """Closures created inside a loop / comprehension that read the loop variable freely (they would all see its last value)."""
+    out = []
+    for comp in ast.walk(fn_node):
+        gens = getattr(comp, "generators", None)
+        loopvars = set()
+        if gens:
+            for g_ in gens:
+                loopvars |= {n.id for n in ast.walk(g_.target) if isinstance(n, ast.Name)}
+            scope = [comp.elt] if hasattr(comp, "elt") else [comp.key, comp.value]
+        elif isinstance(comp, ast.For):
+            loopvars = {n.id for n in ast.walk(comp.target) if isinstance(n, ast.Name)}
+            scope = comp.body
+        else:
+            continue
+        for sc in scope:
+            for lam in ast.walk(sc):
+                if isinstance(lam, (ast.Lambda, ast.FunctionDef)):
+                    params = {a.arg for a in lam.args.args + lam.args.kwonlyargs}
+                    body = lam.body if isinstance(lam.body, list) else [lam.body]
+                    free = {n.id for b in body for n in ast.walk(b) if isinstance(n, ast.Name) and isinstance(n.ctx, ast.Load)} - params
+                    if free & loopvars:
+                        out.append(f"{norm(lam)[:60]} reads {sorted(free & loopvars)} late")
+    return out
